@@ -29,7 +29,7 @@ class Kit:
     """Everything class specific."""
 
     def __init__(self, name, *, mc_module, trace_module, universes, invariants, properties,
-                 proj, build, call, gen, cls, families, nn=6):
+                 proj, build, call, gen, cls, families, nn=6, obs=None):
         self.name = name
         self.mc_module = mc_module
         self.trace_module = trace_module
@@ -39,6 +39,7 @@ class Kit:
         self.proj, self.build, self.call, self.gen, self.cls = proj, build, call, gen, cls
         self.families = families
         self.nn = nn
+        self.obs = obs
 
 
 def cfg_text(constants, invariants, properties, emit):
@@ -165,8 +166,13 @@ def _s2c_worker(args):
         if res == "ok":
             g = g2
         post, postanom = kit.proj(H, g)
-        recs.append({"rid": rid, "gamma": g.name, "pre": pre, "preanom": preanom, "op": op, "res": res,
-                     "warn": nwarn, "post": post, "postanom": postanom})
+        rec = {"rid": rid, "gamma": g.name, "pre": pre, "preanom": preanom, "op": op, "res": res,
+               "warn": nwarn, "post": post, "postanom": postanom}
+        if kit.obs and not postanom:
+            rec.update(kit.obs(H, g, post, rng))
+        elif kit.obs:
+            rec.update(kit.obs(None, g, {"nodes": [], "e2n": []}, rng))
+        recs.append(rec)
     return recs
 
 
@@ -214,7 +220,7 @@ def _c2s_worker(args):
         rng = random.Random((seed_ << 20) + hid)
         g = kit.families[hid % len(kit.families)]()
         out += drive_hg.run_history(f"{kit.name}{hid}", rng, length, gamma=g, nn=kit.nn, cls=kit.cls,
-                                    call=kit.call, proj=kit.proj, gen=kit.gen, **(extra or {}))
+                                    call=kit.call, proj=kit.proj, gen=kit.gen, obs=kit.obs, **(extra or {}))
     return out
 
 
@@ -239,7 +245,7 @@ def op_digest(op):
 def shape_class(rec):
     """(pre-shape, op-kind, result): the equivalence class used for distinct_nontrivial"""
     pre = rec["pre"]
-    sizes = tuple(sorted(len(m) for m in pre["e2n"]))
+    sizes = tuple(sorted(len(m) for m in pre.get("e2n", pre.get("tail", []))))
     return (len(pre["nodes"]), sizes, rec["op"]["name"], rec["op"].get("fmt", 0), rec["res"],
             rec["pre"] != rec["post"])
 
